@@ -183,6 +183,14 @@ def body_patch(c, ctx):
         KII = K[I][:, I].toarray()
         if np.linalg.cond(KII) > 1e9:
             raise Reject()      # e.g. rigid body modes left free by a small Dirichlet part
+    # the assembled system is used several times, as a user does when trying boundary splits: first with the whole boundary
+    # constrained through enforce (which returns a modified copy), then for the generated mixed split through condense
+    y0 = None
+    if facet_ok and len(Nfac):
+        from skfem import enforce
+        fbA = FacetBasis(m, (skfem.ElementVector(build_element(c['elem'])) if problem == 'elasticity' else build_element(c['elem'])), intorder=io)
+        uA = fbA.project(exact)
+        y0 = solve(*enforce(K, f, x=uA, D=basis.get_dofs()))
     y = solve(*condense(K, f, x=uD, D=D))
     # ------------------------------------------------------------------ compare with the exact polynomial
     hb = CellBasis(m, basis.elem, intorder=io)
@@ -212,6 +220,16 @@ def body_patch(c, ctx):
         ctx.fail('patch_test', f'{problem} with {lab} on {desc["cls"]} ({len(Dfac)} Dirichlet / {len(Nfac)} Neumann facets): '
                  f'H1 error {E:.3e} against the polynomial solution (norm {Nn:.2e})', **sig)
         return
+    # the same assembled system used again, as a user does when trying several boundary splits: enforce (which returns a
+    # modified copy) for the same split, then condense with the whole boundary constrained
+    from skfem import enforce
+    ye = solve(*enforce(K, f, x=uD, D=D))
+    if not np.allclose(ye, y, rtol=0, atol=1e-7 * (1 + np.abs(y).max()) / min(1.0, hmin)):
+        ctx.fail('enforce_vs_condense', f'{lab}: enforce and condense give different solutions ({np.abs(ye - y).max():.3e})', **sig)
+    if y0 is not None:
+        E0 = float(np.sqrt(abs(Functional(err).assemble(hb, uh=hb.interpolate(y0)))))
+        if not E0 <= 1e-8 * Nn / min(1.0, hmin):
+            ctx.fail('patch_test_all_dirichlet', f'{lab}: H1 error {E0:.3e} with the whole boundary constrained through enforce', **sig)
     info = ge.R[c['elem']['cls']]
     if info['nodal'] and problem != 'elasticity' and hasattr(basis, 'doflocs'):
         vals = exact(basis.doflocs)
